@@ -49,6 +49,8 @@ Init ==
     expectDisc |-> -1,      \* v5: reason code the DISCONNECT must carry (-1 = no expectation)
     appDisc |-> FALSE,      \* the application supplied / asked for its own DISCONNECT
     connDone |-> FALSE, gateStop |-> FALSE,
+    expectStop |-> "none",  \* C07: class of the termination cause the generator injected
+    ctlDone |-> FALSE,      \* the Stop notification has been handled by the control service
     exceededRM |-> FALSE,   \* the peer had more unacknowledged QoS>0 publishes than the Receive Maximum
     ended |-> FALSE,        \* the run is over: what follows is the harness tearing things down
     router |-> FALSE,       \* the publish service is a topic router with resources "a" and "b"
@@ -251,7 +253,9 @@ OnHDrop(m, ev) ==
   LET i == IdxOf(m.pubs, LAMBDA p : p.h = ev.s /\ p.st = "started") IN
   IF i = 0 THEN m
   ELSE LET m1 == [m EXCEPT !.pubs[i].st = "err", !.running = IF @ > 0 THEN @ - 1 ELSE 0] IN
-       IF Healthy(m) THEN Fail(m1, "C07:handler-cancelled-on-healthy-connection") ELSE m1
+       IF Healthy(m) THEN Fail(m1, "C07:handler-cancelled-on-healthy-connection")
+       ELSE IF m.stops > 0 /\ ~m.ctlDone THEN Fail(m1, "C07:handler-cancelled-before-the-stop-notification-was-handled")
+       ELSE m1
 
 \* C04: a response is written.  Everything that arrived before its request and bears a response
 \* must have been answered already (or has failed / been refused).
@@ -385,7 +389,11 @@ OnCtl(m, ev) ==
                              !.stopPeer = @ \/ ev.k = "stop_peer",
                              !.needProto = IF ev.k = "stop_proto" THEN FALSE ELSE @]
              m2 == End(m1, CASE ev.k = "stop_proto" -> "proto" [] ev.k = "stop_error" -> "error" [] OTHER -> "peer")
-         IN IF m.stops >= 1 THEN Fail(m2, "C07:more-than-one-stop-notification") ELSE m2
+         IN IF m.stops >= 1 THEN Fail(m2, "C07:more-than-one-stop-notification")
+            ELSE IF m.expectStop # "none" /\ m.expectStop # ev.k /\ ~m.term
+              THEN Fail(m2, "C07:stop-reason-class-differs-from-cause")
+            ELSE m2
+    [] ev.k = "ctl_done_marker" -> m
     [] OTHER -> m
 
 \* final{s: gates still open, n: bytes the endpoint has not read}: every gate the harness could
@@ -397,8 +405,10 @@ OnFinal(m, ev) ==
     THEN \* (an error result may wait in the ordered response queue until the handlers ahead
          \*  of it complete: the protocol-error stop is due once every gate was opened)
          Fail(m, m.needWhy)
+  ELSE IF m.est /\ m.expectStop # "none" /\ m.stops = 0
+    THEN Fail(m, "C07:no-stop-notification")
   ELSE IF ~Healthy(m) THEN
-     (IF m.est /\ m.stops > 0 /\ ~m.connDone /\ ~m.gateStop /\ ev.s = 0
+     (IF m.est /\ (m.stops > 0 \/ m.expectStop # "none") /\ ~m.connDone /\ ev.s = 0
         THEN Fail(m, "C07:connection-task-did-not-complete-after-stop") ELSE m)
   ELSE IF \E i \in 1..Len(m.pubs) : ~m.pubs[i].refused /\ m.pubs[i].st = "arrived"
     THEN Fail(m, IF ev.n > 0 THEN "C12:reading-never-resumed"
@@ -428,12 +438,23 @@ Step(m, ev) ==
     [] ev.e = "h_end" -> OnHEnd(m, ev)
     [] ev.e = "h_drop" -> OnHDrop(m, ev)
     [] ev.e = "ctl" -> OnCtl(m, ev)
+    [] ev.e = "ctl_done" -> [m EXCEPT !.ctlDone = TRUE]
+    [] ev.e = "pollall_done" ->
+         IF m.est /\ m.connDone /\ ev.s # 0 THEN Fail(m, "C07:send-future-left-pending-after-teardown") ELSE m
+    [] ev.e = "h_read" ->
+         \* a payload reader finished: complete only if it got every declared byte
+         LET i == IdxOf(m.pubs, LAMBDA p : p.h = ev.s /\ p.h # 0) IN
+         IF i > 0 /\ ev.r = 0 /\ ev.n >= 0 /\ ev.n < m.pubs[i].size
+           THEN Fail(m, "C07:payload-reader-saw-truncated-payload-as-complete")
+           ELSE m
     [] ev.e = "final" -> OnFinal(m, ev)
     [] ev.e = "panic" -> Fail(m, "C16:panic")
     [] ev.e = "conn_done" -> End([m EXCEPT !.connDone = TRUE], "local")
     [] ev.e \in {"peer_close", "io_err", "end"} -> End(m, "peer")
     [] ev.e = "close" -> End([m EXCEPT !.appDisc = TRUE], "local")
     [] ev.e = "expect_disc" -> [m EXCEPT !.expectDisc = ev.n]
+    [] ev.e = "cause" /\ ev.k \in {"stop_peer", "stop_proto", "stop_error"} ->
+         IF m.expectStop = "none" /\ ~m.term THEN [m EXCEPT !.expectStop = ev.k] ELSE m
     [] ev.e = "cause" ->
          \* the generator is about to inject an error to which MQTT 5 assigns a dedicated code
          IF m.term \/ m.appDisc \/ m.expectDisc >= 0 \/ m.needProto THEN m
